@@ -376,6 +376,12 @@ func init() {
 		return timeVal(p, t)
 	})
 	reg(v("vTimeNs"), func(p *Path, _ *frame, _ *ssa.Function, args []Value) Value { return timeNs(args[0]) })
+	reg(v("vLastTimerDuration"), func(p *Path, _ *frame, _ *ssa.Function, args []Value) Value {
+		if d, ok := p.ghost["__lastTimerDur"]; ok {
+			return d.(*Term)
+		}
+		return p.ctx.Const(64, 0)
+	})
 	reg(v("vLastNow"), func(p *Path, _ *frame, _ *ssa.Function, args []Value) Value {
 		if p.lastNow == nil {
 			return p.ctx.Const(64, 0)
@@ -859,6 +865,9 @@ func (p *Path) timeStub(fn *ssa.Function, args []Value) (Value, bool) {
 	case "(time.Time).String", "(time.Time).Format":
 		return p.freshStr("timefmt"), true
 	case "time.After":
+		if d, ok := args[0].(*Term); ok {
+			p.ghost["__lastTimerDur"] = d
+		}
 		return p.newTimerChan("After"), true
 	case "time.Sleep":
 		return nil, true
